@@ -120,7 +120,8 @@ def make_ops(rng, cfg, profile, tier):
             ops.append({'op': 'TOML', 'a': [], 'values': _toml_values(rng),
                         'spelling': rng.choice(['True', 'true', 'Yes', 'yes']),
                         'values2': _toml_values(rng) if rng.random() < 0.6 else None,
-                        'fname': rng.choice(['params.toml', 'params.toml', '.biogeme.toml', 'my params.toml', '.est.toml'])})
+                        'fname': rng.choice(['params.toml', 'params.toml', '.biogeme.toml', 'my params.toml', '.est.toml']),
+                        'user_section': rng.random() < 0.3})
         elif r < 0.92:
             ops.append({'op': 'PLANT', 'a': [mi, rng.choice(EXTS + ['dat', 'csv']),
                                              rng.choice(['base', 'gap', 'many', 'dir', 'empty', 'other', 'first3'])]})
@@ -531,9 +532,34 @@ class Session:
             from biogeme.parameters import Parameters
             # the file name is the user's: hidden files and names with blanks are ordinary names
             tfile = op.get('fname') or 'params.toml'
-            p = Parameters()
+            user = bool(op.get('user_section'))
+
+            def fresh():
+                # optionally with a user-defined section that reuses two names of section SimpleBounds (the API identifies
+                # a parameter by name AND section)
+                obj_ = Parameters()
+                if user:
+                    from biogeme.default_parameters import ParameterTuple
+                    import biogeme.check_parameters as cp
+                    obj_.add_parameter(ParameterTuple(name='tolerance', value=1.0e-3, type=float, section='MyAlgorithm',
+                                                      description='float: tolerance of my algorithm', check=(cp.is_number,)))
+                    obj_.add_parameter(ParameterTuple(name='max_iterations', value=50, type=int, section='MyAlgorithm',
+                                                      description='int: iterations of my algorithm',
+                                                      check=(cp.is_integer, cp.is_positive)))
+                return obj_
+
+            def setv(obj_, k_, v_):
+                if user and k_ in ('tolerance', 'max_iterations'):
+                    obj_.set_value(k_, v_, section='SimpleBounds')
+                else:
+                    obj_.set_value(k_, v_)
+            p = fresh()
             for k, v in op['values'].items():
-                p.set_value(k, v)
+                setv(p, k, v)
+            if user:
+                p.set_value('tolerance', 0.25, section='MyAlgorithm')
+                p.set_value('max_iterations', 7, section='MyAlgorithm')
+                ctx.probe('parameter names shared by two sections')
             self.exempt_now = {tfile}
             ok, _ = self._lib('I14.4.raise', p.dump_file, tfile)
             if ok:
@@ -544,7 +570,7 @@ class Session:
                     txt = txt.replace('"False"', f'"{no}"')
                     with REAL_OPEN(tfile, 'w', encoding='utf-8') as f:
                         f.write(txt)
-                q = Parameters()
+                q = fresh()
                 ok2, _ = self._lib('I14.4.raise', q.read_file, tfile)
                 if ok2:
                     for key, tup in p.all_parameters_dict.items():
@@ -562,12 +588,12 @@ class Session:
                         # object that was dumped): the file must hold the values of the object at the time of the dump
                         for who, obj in (('read', q), ('dumped', p)):
                             for k, v in op['values2'].items():
-                                obj.set_value(k, v)
+                                setv(obj, k, v)
                             self.exempt_now = {tfile}
                             ok3, _ = self._lib('I14.4.raise', obj.dump_file, tfile)
                             if not ok3:
                                 break
-                            r3 = Parameters()
+                            r3 = fresh()
                             ok4, _ = self._lib('I14.4.raise', r3.read_file, tfile)
                             if not ok4:
                                 break
